@@ -505,6 +505,175 @@ theorem circular_component_singular (pix : List (ℝ × ℝ)) (comps : List (Com
 
 end Fisher
 
+/-! ### What is handed to the optimiser is the gradient of the residual it minimises
+
+  `do_lmfit` minimises `residual = (model − data[mask])` (plain) or `(model − data[mask])·B`
+  (whitened) and passes `lmfit_jacobian(…, errs=None, B=B)` as `Dfun`. -/
+
+section Residual
+open Aegean.C04Bridge
+
+/-- entry `(l, k)` of the rectangular matrix of Jacobian rows is the derivative entry of the free
+    parameter with rank `k` at pixel `l` -/
+theorem jacRows_entry (pix : List (ℝ × ℝ)) (comps : List (Comp ℝ × Vary)) (i : Nat) (p : Par)
+    (h : i < comps.length) (hv : comps[i].2 p = true) (l : Fin pix.length)
+    (k : Fin (nfree (comps.map (·.2)))) (hk : (k : ℕ) = rank (comps.map (·.2)) i p) :
+    toM (jacRows genDerivs pix comps) (nfree (comps.map (·.2))) pix.length k l
+      = genDerivs.entry p comps[i].1 pix[l].1 pix[l].2 := by
+  have hri := row_index genDerivs pix comps i p h hv
+  have hget : (jacRows genDerivs pix comps).getD k [] = genDerivs.row pix comps[i].1 p := by
+    rw [List.getD_eq_getElem?_getD, hk, hri]; rfl
+  simp only [toM, hget, Derivs.row]
+  rw [getD_map pix _ l 0 (0, 0) l.2, getD_of_lt pix (0, 0) l l.2]
+  rfl
+
+/-- **residual_gradient** (plain branch): the derivative of the residual `model − data` at a pixel
+    with respect to parameter `p` of component `i` is that parameter's Jacobian entry -/
+theorem residual_gradient (comps : List (Comp ℝ)) (i : Nat) (h : i < comps.length) (p : Par) (x y d : ℝ)
+    (hsx : comps[i].sx ≠ 0) (hsy : comps[i].sy ≠ 0) (hamp : p = .amp → comps[i].amp ≠ 0) :
+    HasDerivAt (fun v => modelSum genDerivs (comps.set i (comps[i].setPar p v)) x y - d)
+      (genDerivs.entry p comps[i] x y) (comps[i].get p) :=
+  (sum_model_derivative comps i h p x y hsx hsy hamp).sub_const d
+
+/-- **whitened_residual_gradient**: component `j` of the whitened residual `(model − data)·B`
+    has derivative `Σ_l entry(pixel l)·B[l][j]` with respect to parameter `p` of component `i` -/
+theorem whitened_residual_gradient (comps : List (Comp ℝ)) (i : Nat) (h : i < comps.length) (p : Par)
+    {m : ℕ} (px : Fin m → ℝ × ℝ) (data : Fin m → ℝ) (B : Matrix (Fin m) (Fin m) ℝ) (j : Fin m)
+    (hsx : comps[i].sx ≠ 0) (hsy : comps[i].sy ≠ 0) (hamp : p = .amp → comps[i].amp ≠ 0) :
+    HasDerivAt
+      (fun v => ∑ l, (modelSum genDerivs (comps.set i (comps[i].setPar p v)) (px l).1 (px l).2 - data l) * B l j)
+      (∑ l, genDerivs.entry p comps[i] (px l).1 (px l).2 * B l j) (comps[i].get p) :=
+  HasDerivAt.fun_sum fun l _ =>
+    (residual_gradient comps i h p (px l).1 (px l).2 (data l) hsx hsy hamp).mul_const (B l j)
+
+/-- **dfun_is_residual_gradient**: entry `(j, rank(i,p))` of what the executable
+    `lmfit_jacobian(…, errs=None, B=b)` returns — the matrix `do_lmfit` hands to lmfit as `Dfun` —
+    is the derivative of the `j`-th component of the whitened residual `(model − data)·b` with
+    respect to the free parameter `(i, p)`, in that parameter's own units; for every number of
+    components, every vary subset, every pixel list and every square `b`. -/
+theorem dfun_is_residual_gradient (pix : List (ℝ × ℝ)) (comps : List (Comp ℝ × Vary)) (i : Nat) (p : Par)
+    (h : i < comps.length) (hv : comps[i].2 p = true)
+    (b : List (List ℝ)) (hb : Rect b pix.length pix.length) (data : Fin pix.length → ℝ) (j : Fin pix.length)
+    (k : Fin (nfree (comps.map (·.2)))) (hk : (k : ℕ) = rank (comps.map (·.2)) i p)
+    (hsx : comps[i].1.sx ≠ 0) (hsy : comps[i].1.sy ≠ 0) (hamp : p = .amp → comps[i].1.amp ≠ 0) :
+    HasDerivAt
+      (fun v => ∑ l : Fin pix.length,
+        (modelSum genDerivs ((comps.map (·.1)).set i (comps[i].1.setPar p v)) pix[l].1 pix[l].2 - data l)
+          * toM b pix.length pix.length l j)
+      (toM (lmfitJac (jacRows genDerivs pix comps) pix.length none (some b)) pix.length
+        (nfree (comps.map (·.2))) j k)
+      (comps[i].1.get p) := by
+  have hlen : i < (comps.map (·.1)).length := by simpa using h
+  have hci : (comps.map (·.1))[i] = comps[i].1 := by simp
+  have hW := whitened_residual_gradient (comps.map (·.1)) i hlen p (fun l : Fin pix.length => pix[l]) data
+    (toM b pix.length pix.length) j (by rw [hci]; exact hsx) (by rw [hci]; exact hsy)
+    (fun e => by rw [hci]; exact hamp e)
+  rw [hci] at hW
+  refine hW.congr_deriv ?_
+  rw [lmfitJac_bridge _ _ _ none (some b) (jacRows_rect genDerivs pix comps) (fun e he => by cases he)
+    (fun b' hb' => by cases hb'; exact hb)]
+  simp only [lmfitJacM, Option.map_some, Matrix.transpose_apply, Matrix.mul_apply, Matrix.of_apply, errsFun,
+    div_one]
+  refine Finset.sum_congr rfl fun l _ => ?_
+  rw [jacRows_entry pix comps i p h hv l k hk]
+
+end Residual
+
+/-! ### The regenerated `lmfit_jacobian` pipeline -/
+
+section Pipeline
+open Aegean.C04Bridge
+
+/-- obligation on the regenerated pipeline: rows from the analytic `jacobian(pars, x, y)`, then
+    exactly three steps in this order — divide by `errs` (if given), right-multiply by `B` (if
+    given), transpose.  Breaks if the source reorders, drops or adds a step. -/
+theorem lmj_pipeline_spec :
+    lmjSrc 0 = 1 ∧ lmjLen 0 = 3 ∧ lmjOp 0 = 1 ∧ lmjOp 1 = 2 ∧ lmjOp 2 = 3 := by decide
+
+/-- the glue run on that pipeline is the model `lmfitJac` about which everything above is proved -/
+theorem lmfitJacGen_eq (rows : List (List α)) [R α] (npix : Nat) (errs : Option (List α))
+    (B : Option (List (List α))) : lmfitJacGen rows npix errs B = lmfitJac rows npix errs B := by
+  obtain ⟨_, hl, h0, h1, h2⟩ := lmj_pipeline_spec
+  unfold lmfitJacGen runOps
+  rw [hl]
+  have hr : List.range 3 = [0, 1, 2] := by decide
+  rw [hr]
+  simp only [List.foldl_cons, List.foldl_nil, h0, h1, h2, stepOp]
+  cases errs <;> cases B <;> simp [lmfitJac, matMul, divErrs]
+
+/-- the bridge, for what the driver executes -/
+theorem lmfitJacGen_bridge (rows : List (List ℝ)) (n m : ℕ) (errs : Option (List ℝ))
+    (B : Option (List (List ℝ))) (hr : Rect rows n m)
+    (he : ∀ e, errs = some e → e.length = m) (hb : ∀ b, B = some b → Rect b m m) :
+    toM (lmfitJacGen rows m errs B) m n
+      = lmfitJacM (toM rows n m) (errsFun errs m) (B.map (fun b => toM b m m)) := by
+  rw [lmfitJacGen_eq]; exact lmfitJac_bridge rows n m errs B hr he hb
+
+/-- **dfun_gen_is_residual_gradient**: `dfun_is_residual_gradient` for the regenerated pipeline -/
+theorem dfun_gen_is_residual_gradient (pix : List (ℝ × ℝ)) (comps : List (Comp ℝ × Vary)) (i : Nat) (p : Par)
+    (h : i < comps.length) (hv : comps[i].2 p = true)
+    (b : List (List ℝ)) (hb : Rect b pix.length pix.length) (data : Fin pix.length → ℝ) (j : Fin pix.length)
+    (k : Fin (nfree (comps.map (·.2)))) (hk : (k : ℕ) = rank (comps.map (·.2)) i p)
+    (hsx : comps[i].1.sx ≠ 0) (hsy : comps[i].1.sy ≠ 0) (hamp : p = .amp → comps[i].1.amp ≠ 0) :
+    HasDerivAt
+      (fun v => ∑ l : Fin pix.length,
+        (modelSum genDerivs ((comps.map (·.1)).set i (comps[i].1.setPar p v)) pix[l].1 pix[l].2 - data l)
+          * toM b pix.length pix.length l j)
+      (toM (lmfitJacGen (jacRows genDerivs pix comps) pix.length none (some b)) pix.length
+        (nfree (comps.map (·.2))) j k)
+      (comps[i].1.get p) := by
+  rw [lmfitJacGen_eq]
+  exact dfun_is_residual_gradient pix comps i p h hv b hb data j k hk hsx hsy hamp
+
+end Pipeline
+
+/-! ### The regenerated Fisher-matrix assembly of `covar_errors` -/
+
+section Assembly
+open Aegean.C04Bridge Aegean.C04Fisher
+
+/-- the regenerated word of a branch, as a list -/
+def fisWord (w : Nat → Nat) (len : Nat) : List Nat := (List.range len).map w
+
+/-- the matrix a word denotes (1 = `Jᵀ`, 2 = `J`, 3 = `C⁻¹`); only the two shapes `covar_errors`
+    may use have a meaning as an `nfree × nfree` Fisher matrix, anything else is `none` -/
+noncomputable def covarOfWord {n m : ℕ} (w : List Nat) (J : Matrix (Fin m) (Fin n) ℝ)
+    (Cinv : Matrix (Fin m) (Fin m) ℝ) : Option (Matrix (Fin n) (Fin n) ℝ) :=
+  if w = [1, 2] then some (Matrix.transpose J * J)
+  else if w = [1, 3, 2] then some (Matrix.transpose J * Cinv * J)
+  else none
+
+/-- obligation on the regenerated assembly: the B branch asks `lmfit_jacobian` for the Jacobian
+    with `errs` and `B` and forms `Jᵀ·J`; the C branch asks for it with `errs` only and forms
+    `Jᵀ·inv(C)·J`; both take `sqrt(diag(inv(covar)))`.  Breaks when the source changes a factor,
+    its side, a transpose, or the arguments of the call. -/
+theorem fisher_assembly_spec :
+    fisJacB 0 = 2 ∧ fisWord fisWordB (fisLenB 0) = [1, 2] ∧
+    fisJacC 0 = 1 ∧ fisWord fisWordC (fisLenC 0) = [1, 3, 2] ∧ fisSigma 0 = 1 := by decide
+
+/-- **covar_errors_fisher**: with `J` what the regenerated `lmfit_jacobian` pipeline returns for the
+    arguments each branch passes, the regenerated products are the Fisher matrices of
+    `Aegean.C04Fisher`: B branch `A·Aᵀ` with `A = M/errs·B`, C branch `A·C⁻¹·Aᵀ` with `A = M/errs` —
+    to which `covar_psd_pd`, `circular_component_singular` and `whitening_consistent` apply. -/
+theorem covar_errors_fisher (rows : List (List ℝ)) (n m : ℕ) (errs : Option (List ℝ)) (b : List (List ℝ))
+    (Cinv : Matrix (Fin m) (Fin m) ℝ) (hr : Rect rows n m)
+    (he : ∀ e, errs = some e → e.length = m) (hb : Rect b m m) :
+    covarOfWord (fisWord fisWordB (fisLenB 0)) (toM (lmfitJacGen rows m errs (some b)) m n) Cinv
+        = some (fisher (whitened (toM rows n m) (errsFun errs m) (some (toM b m m)))) ∧
+    covarOfWord (fisWord fisWordC (fisLenC 0)) (toM (lmfitJacGen rows m errs none) m n) Cinv
+        = some (fisherC (whitened (toM rows n m) (errsFun errs m) none) Cinv) := by
+  obtain ⟨_, hwb, _, hwc, _⟩ := fisher_assembly_spec
+  rw [hwb, hwc]
+  rw [lmfitJacGen_bridge rows n m errs (some b) hr he (fun b' h => by cases h; exact hb),
+    lmfitJacGen_bridge rows n m errs none hr he (fun b' h => by cases h)]
+  constructor
+  · simp [covarOfWord, lmfitJacM, whitened, fisher]
+  · simp [covarOfWord, lmfitJacM, whitened, fisherC]
+
+example : covarOfWord (n := 1) (m := 1) [2, 1] 1 1 = none := by simp [covarOfWord]
+
+end Assembly
+
 /-! ### Non-vacuity and the negation witness for the pinned loop -/
 
 /-- all six parameters free -/
